@@ -480,6 +480,19 @@ func ParseFile(path string, pkgPath string) (*File, error) {
 			di := strings.Index(head[1], ".$")
 			f.Reps = append(f.Reps, &Represents{Impl: head[0], Iface: head[1][:di], Ghost: head[1][di+1:], Expr: ex, Text: strings.TrimSpace(rest), Pos: ln.pos, Pkg: f.Pkg})
 			cur, curCS = nil, nil
+		case "typeinv":
+			// typeinv (*T) expr-over-this
+			r := strings.TrimSpace(rest)
+			close := strings.Index(r, ")")
+			if !strings.HasPrefix(r, "(") || close < 0 {
+				return nil, fail(fmt.Errorf("typeinv (*T) expr"))
+			}
+			ex, err := ParseExpr(r[close+1:])
+			if err != nil {
+				return nil, fail(err)
+			}
+			f.TypeInvs = append(f.TypeInvs, &TypeInv{Recv: r[:close+1], Expr: ex, Text: strings.TrimSpace(r[close+1:]), Pos: ln.pos, Pkg: f.Pkg})
+			cur, curCS = nil, nil
 		case "ghost":
 			g, err := parseGhost(rest)
 			if err != nil {
@@ -700,8 +713,34 @@ func ParseFile(path string, pkgPath string) (*File, error) {
 				}
 				cur.CallSites = append(cur.CallSites, cs)
 				curCS = cs
+			case "cutafter":
+				// "cutafter callee#n" + "invariant expr" lines: the paths of the function are joined after that call; what
+				// follows is verified once, from an arbitrary state satisfying the invariants (like a loop head)
+				idx := strings.LastIndex(rest, "#")
+				cs := &CallSite{Pos: ln.pos, Cut: true, Ordinal: 1}
+				if idx >= 0 {
+					n, err := strconv.Atoi(strings.TrimSpace(rest[idx+1:]))
+					if err != nil {
+						return nil, fail(fmt.Errorf("bad call ordinal"))
+					}
+					cs.Ordinal = n
+					cs.Callee = strings.TrimSpace(rest[:idx])
+				} else {
+					cs.Callee = rest
+				}
+				cur.Cuts = append(cur.Cuts, cs)
+				curCS = cs
+			case "invariant":
+				if curCS == nil || !curCS.Cut {
+					return nil, fail(fmt.Errorf("invariant outside cutafter"))
+				}
+				cl, err := parseClause(rest, ln.pos)
+				if err != nil {
+					return nil, fail(err)
+				}
+				curCS.Asserts = append(curCS.Asserts, cl)
 			case "assert":
-				if curCS == nil {
+				if curCS == nil || curCS.Cut {
 					return nil, fail(fmt.Errorf("assert outside callsite"))
 				}
 				cl, err := parseClause(rest, ln.pos)
@@ -720,7 +759,7 @@ func ParseFile(path string, pkgPath string) (*File, error) {
 var keywords = map[string]bool{
 	"spec": true, "ghost": true, "axiom": true, "lemma": true, "event": true, "func": true,
 	"requires": true, "ensures": true, "modifies": true, "pure": true, "noeffect": true, "trusted": true,
-	"let": true, "loop": true, "callsite": true, "assert": true, "import": true, "package": true,
+	"let": true, "loop": true, "callsite": true, "assert": true, "cutafter": true, "invariant": true, "typeinv": true, "import": true, "package": true,
 	"noinline": true, "inline": true, "props": true, "fresh": true, "opt": true, "stablegetters": true, "represents": true, "dyncall": true, "silent": true, "assumes": true,
 }
 
